@@ -1128,7 +1128,7 @@ def m_string_new(ex, n, a, f):
        r'^<std::string::String as std::convert::From<&std::string::String>>::from$', r'^<str as std::string::SpecToString>::spec_to_string$',
        r'^<std::string::String as std::string::ToString>::to_string$', r'^<str as alloc::string::SpecToString>::spec_to_string$',
        r'^std::str::<impl str>::to_string$', r'^alloc::str::<impl str>::to_owned$', r'^<&str as std::convert::Into<std::string::String>>::into$',
-       r'^std::string::String::from_str$')
+       r'^std::string::String::from_str$', r'^(std|alloc)::str::<impl std::borrow::ToOwned for str>::to_owned$')
 def m_string_from_str(ex, n, a, f):
     return StringV(as_str(ex, a[0]))
 
@@ -1604,9 +1604,50 @@ def m_bt_extend(ex, n, a, f):
     return UNIT
 
 
+class EntryV:
+    __slots__ = ('map', 'key')
+
+    def __init__(self, map_, key):
+        self.map = map_
+        self.key = key
+
+
 @model(r'^std::collections::BTreeMap::<.*>::entry$')
 def m_bt_entry(ex, n, a, f):
-    raise Unsupported("BTreeMap::entry")
+    return EntryV(ex.deref(a[0]), a[1])
+
+
+@model(r'^std::collections::btree_map::Entry::<.*>::and_modify::<')
+def m_bt_entry_and_modify(ex, n, a, f):
+    e = ex.force(a[0])
+    i, found = bt_find(e.map, sort_key(ex, e.key))
+    if found:
+        ex.call_value(a[1], [Ref(e.map.entries[i][2])])
+    return e
+
+
+@model(r'^std::collections::btree_map::Entry::<.*>::(or_insert|or_insert_with|or_default)(::<.*)?$')
+def m_bt_entry_or_insert(ex, n, a, f):
+    e = ex.force(a[0])
+    i, found = bt_find(e.map, sort_key(ex, e.key))
+    if not found:
+        if '::or_insert_with' in n:
+            v = ex.call_value(a[1], [])
+        elif '::or_default' in n:
+            raise Unsupported('Entry::or_default')
+        else:
+            v = a[1]
+        e.map.entries.insert(i, [sort_key(ex, e.key), e.key, Cell(v)])
+    return Ref(e.map.entries[i][2])
+
+
+@model(r'^<std::collections::BTreeMap<.*> as std::ops::Index<.*>>::index$')
+def m_bt_index(ex, n, a, f):
+    mp = ex.deref(a[0])
+    i, found = bt_find(mp, sort_key(ex, a[1]))
+    if not found:
+        raise Panic('BTreeMap index: no entry found for key')
+    return Ref(mp.entries[i][2])
 
 
 # --------------------------------------------------------------------------- LazyLock statics
